@@ -22,5 +22,5 @@ Definition status_code_len : N := 3.
 Definition close_default_bodiless (c : N) : bool := (c =? 204) || (c =? 304) || ((100 <=? c) && (c <? 200)).
 
 (* lax = not DEBUG; SEP = LF; lines are rstrip(CR)'ed; chunk sizes are strip()'ed; the optional CR after
-   chunk data and after the last-chunk line is skipped; _is_chunked_te by rsplit: shapes checked *)
+   chunk data is skipped, nothing after the last-chunk line; _is_chunked_te by rsplit: shapes checked *)
 Definition lax_shapes_checked : bool := true.
